@@ -195,19 +195,28 @@ def c13_set(pairs):
 
 
 PROPS['C13'] = {
-    'verus': [],
+    'verus': ['u_merge'],
     'kani': {'quick': [kset('c13', c13_set([(1, 1), (1, 2), (2, 1), (2, 2), (1, 3), (3, 1), (2, 3), (3, 2), (3, 3)]))],
              'thorough': [kset('c13', c13_set([(1, 1), (1, 2), (2, 1), (2, 2), (1, 3), (3, 1), (2, 3), (3, 2), (3, 3)]) +
                                [H('c13_add_4_4', 'piecewise', 'operand sizes 4+4'), H('c13_sub_4_4', 'piecewise', 'operand sizes 4+4'),
                                 H('c13_add_2_4', 'piecewise', 'operand sizes 2+4'), H('c13_sub_4_2', 'piecewise', 'operand sizes 4+2')], timeout=10000)]},
     'probe': False,
-    'level': 'model_checking',
-    'explanation': 'Kani harnesses on the real merge loops of &f + &g and &f - &g with pair-recording pieces: for symbolic sorted non-NaN ends of both '
+    'level': 'proof',
+    'explanation': 'Verus proves the real merge loops of `&f + &g` and `&f - &g` (unit u_merge; abstract piece type, operands of ANY size): under wfs(f), wfs(g) '
+                   '(non-empty, non-NaN, non-decreasing ends) the loop terminates without panic (indexing, unwrap of partial_cmp, arithmetic) and the result r satisfies merged(f,g,r): '
+                   'non-empty, non-NaN non-decreasing ends each equal (bit for bit) to an end of f or g, at most len f + len g - 1 pieces, and for every real position x the piece '
+                   'selected in r is op(piece of f selected at x, piece of g selected at x). Loop invariant merge_inv (everything consumed lies at or below the last pushed end, '
+                   'the next ends lie at or above it, the pieces pushed so far are right below it). Cross-check on the compiled crate: '
+                   'Kani harnesses on the real merge loops of &f + &g and &f - &g with pair-recording pieces: for symbolic sorted non-NaN ends of both '
                    'operands and every non-NaN x, the result is non-empty, has non-decreasing non-NaN breakpoints each bit-equal to a breakpoint of f or g, '
                    'has at most len(f)+len(g)-1 pieces, and the piece selected at x combines exactly the pieces of f and g selected at x. One harness per '
                    'pair of operand sizes.',
-    'assumptions': [PARAM, 'bounded: operand sizes up to 3+3 (quick) / 4+4 (thorough)',
-                    'Verus rejects the loop (internal error on `&a.poly + &b.poly` under `&T: Add<&T>`), so no unbounded proof'],
+    'assumptions': [FM_BITS, FM_ORD, PARAM,
+                    'the piece operation `&a.poly + &b.poly` (resp. `-`) cannot be typed by the Verus front end under `&T: Add<&T>`; extraction wraps it in an external_body function '
+                    'whose body is that expression and whose contract names the result pop(a,b) (uninterpreted): what the piece operation computes is C14, not C13',
+                    'trusted: partial_cmp on f64 returns None iff a NaN is involved, otherwise the order of the two values (axiom ax_pcmp on vstd\'s partial_cmp_ensures hook); vstd contracts for Vec::push/with_capacity/indexing, usize::min, Option::unwrap',
+                    'operand sizes: len f + len g < 2^31 (no usize overflow)',
+                    'Kani cross-check bounded: operand sizes up to 3+3 (quick) / 4+4 (thorough)'],
 }
 
 
@@ -390,7 +399,7 @@ def mp(name, module, what):
 
 
 PROPS['C16'] = {
-    'verus': ['u_pwsel'],
+    'verus': ['u_pwsel', 'u_merge'],
     'kani': {
         'quick': [kset('c16',
                        hs('c02_direct_n', 'piecewise', [1, 2, 3, 4], 'segments N = {n}; every f64 argument', PW_EVAL) +
@@ -411,7 +420,7 @@ PROPS['C16'] = {
     'probe': False,
     'level': 'other',
     'explanation': 'Panic-freedom is an obligation of every unit: Verus proves that the assert! in Piecewise::evaluate cannot fire and that indexing/unwrap are safe for '
-                   'every f64 argument and any number of segments; Kani checks bounds, unwrap, overflow and assert! in the harnesses with UNCONSTRAINED f64 queries '
+                   'every f64 argument and any number of segments, and that the merge loops of + and - cannot panic on well-formed operands of any size; Kani checks bounds, unwrap, overflow and assert! in the harnesses with UNCONSTRAINED f64 queries '
                    '(NaN, infinities) for direct evaluation, the stateful evaluator (inductive step from any invariant-satisfying state plus 3-query histories) and '
                    'evaluate_v. NaN clause: after any query, NaN included, the evaluator invariant still holds and every non-NaN query is answered like direct '
                    'evaluation. The documented rejections are the only should_panic harnesses.',
